@@ -537,6 +537,15 @@ func Run(o *drv.Out) {
 		w.cappedCase(12)
 		w.close()
 	}
+	nSame := 2
+	if o.Tier == "thorough" {
+		nSame = 8
+	}
+	for i := 0; i < nSame; i++ {
+		w := newWorld(o, fmt.Sprintf("samecap-%d", i))
+		w.sameCapCase(i == 0)
+		w.close()
+	}
 	for i := 0; i < nFuzz; i++ {
 		w := newWorld(o, fmt.Sprintf("fuzz-%d", i))
 		w.fuzzCase(lenFuzz)
